@@ -101,6 +101,10 @@ impl Default for SimOpts {
 /// The "sim" section of a plan: strategy, time charge, fault rates, knobs (swarm: varied per run).
 pub fn gen_sim(g: &mut Rng, o: SimOpts) -> J {
     let mut s = obj! {};
+    if o.timing {
+        // tells the minimiser to leave the strategy alone
+        s.set("timing", true.into());
+    }
     if o.concurrent && o.timing {
         if g.chance(1, 2) {
             s.set("strategy", "sticky".into());
@@ -154,6 +158,16 @@ pub fn gen_sim(g: &mut Rng, o: SimOpts) -> J {
         },
     );
     s
+}
+
+/// One local queue per scheduler: the global queue creates `num_cpus` "thread-exclusive" local queues
+/// and hands them out round robin, so with fewer CPUs than schedulers two schedulers share one
+/// (recorded as a known finding under C20). Scenarios that are about something else call this.
+pub fn ensure_cpus(sim: &mut J, schedulers: u64) {
+    if let Some(k) = sim.get_mut("knobs") {
+        let have = k.gu("num_cpus");
+        k.set("num_cpus", have.max(schedulers).into());
+    }
 }
 
 /// Structural shrink candidates: every array outside "sim" loses a half or one element; the
